@@ -63,3 +63,40 @@ def variant(base_name: str, extras=(), const_k=None):
     setattr(_THIS, cname, cls)
     _CACHE[key] = cls
     return cls
+
+
+# --- class families for deprecation (C20): fresh classes per case, because deprecate() cannot be undone
+_FAMILIES = [0]
+
+
+def dep_family(moved: bool = True):
+    """Returns (CfgNew, CfgOld, TaskNew, TaskOld); the Old classes subclass the New ones and carry
+    their own identifier; they are *not* deprecated yet.  moved=True: the old identifiers end
+    with the same name component (the documented 'class moved to another package' case)."""
+    from typing import List
+
+    from experimaestro import Task
+
+    _FAMILIES[0] += 1
+    k = _FAMILIES[0]
+
+    def make(name, bases, ann, ns):
+        ns = dict(ns, __annotations__=ann, __module__=__name__, __qualname__=name)
+        cls = type(name, bases, ns)
+        setattr(_THIS, name, cls)
+        return cls
+
+    cfg_new = make(f"DepCfgNew{k}", (Config,), {"x": Param[int], "sub": Param[Optional[Config]]}, {"__xpmid__": f"vx.dep{k}.cfg"})
+    cfg_old = make(f"DepCfgOld{k}", (cfg_new,), {}, {"__xpmid__": f"vx.old{k}.cfg" if moved else f"vx.dep{k}.oldcfg"})
+
+    def execute(self):
+        pass
+
+    task_new = make(
+        f"DepTaskNew{k}",
+        (Task,),
+        {"v": Param[int], "ins": Param[List[Config]], "named": Param[universe.Dict[str, Config]]},
+        {"__xpmid__": f"vx.dep{k}.task", "ins": [], "named": {}, "execute": execute},
+    )
+    task_old = make(f"DepTaskOld{k}", (task_new,), {}, {"__xpmid__": f"vx.old{k}.task" if moved else f"vx.dep{k}.oldtask"})
+    return cfg_new, cfg_old, task_new, task_old
